@@ -745,3 +745,109 @@ def translate_group(repo='/repo', tu=None):
     return ('(* GENERATED by props/C17/sel2coq.py (on tools/cxx2coq.py) from HashSorter.h: HashSorter::pvGroup -- do not edit *)\n\n'
             'From Coq Require Import ZArith Bool List.\nFrom MomoCommon Require Import GenPrelude.\nFrom C17 Require Import SelPrims.\n'
             'Local Open Scope Z_scope.\n\nSection Gen_Group_sec.\nVariable eqf : Z -> Z -> bool.\nVariable loop_fuel : nat.\n\n' + txt + '\n\nEnd Gen_Group_sec.\n')
+
+
+# ======================================================================================================================
+# grow round 5: pvBinarySearch / pvExponentialSearch (the continuations of pvFindHash), translated from the source
+class SrchFn(RxFn):
+    """iterComparer(SMath::Next(begin, e)) -> (cmp e) with cmp : Z -> Z a Section variable (the comparer on relative offsets);
+    returns are exit codes:  pvBinarySearch: 1 = found at (leftIndex + rightIndex) / 2, 0 = not found at leftIndex;
+    pvExponentialSearch: 1 = found at i, 2 = pvBinarySearch(Next(begin,leftIndex), i - leftIndex), 3 = pvBinarySearch(Next(begin,leftIndex), count - leftIndex)"""
+    def e(self, n):
+        oi = opinfo(n)
+        if oi is not None and oi[0] == 'operator()' and oi[1] == 'iterComparer':
+            return '(cmp %s)' % self.pos(oi[2][0])
+        return super().e(n)
+
+    def ret_stmt(self, v, jc):
+        txt = json.dumps(v)
+        def has(name):
+            return ('"name": "%s"' % name) in txt
+        lits = []
+        def walk(n):
+            if isinstance(n, dict):
+                if n.get('kind') == 'CXXBoolLiteralExpr':
+                    lits.append(bool(n['value']))
+                for c in n.get('inner', []):
+                    walk(c)
+        walk(v)
+        if self.name == 'pvBinarySearch':
+            if lits == [True] and has('middleIndex'): code = 1
+            elif lits == [False] and has('leftIndex'): code = 0
+            else: raise TranslationError('pvBinarySearch: unrecognised return statement')
+        else:
+            if has('pvBinarySearch') and has('count'): code = 3
+            elif has('pvBinarySearch'): code = 2
+            elif lits == [True]: code = 1
+            else: raise TranslationError('pvExponentialSearch: unrecognised return statement')
+        return jc['ret']('(%d)' % code)
+
+
+def translate_searches(repo='/repo', tu=None):
+    tu = tu or os.path.join(os.path.dirname(os.path.abspath(__file__)), 'inst_hs.cpp')
+    cfg = {'tu': tu, 'filter': 'HashSorter', 'includes': [os.path.join(repo, 'include')]}
+    objs = cxx2coq.load_objs(cxx2coq.dump_ast(cfg, repo))
+    out = []
+    for name in ('pvBinarySearch', 'pvExponentialSearch'):
+        ds = [d for d in _methods(objs, name) if any(c.get('kind') == 'TemplateArgument' for c in d.get('inner', []))
+              and d['type']['qualType'].split('(')[1].startswith('unsigned long *')]
+        if len(ds) < 1:
+            raise TranslationError('no instantiated HashSorter::%s on a forward iterator' % name)
+        d = dict(ds[0]); d.pop('storageClass', None)
+        cfgf = {'name': 'Gen_Searches', 'fields': {}, 'functions': [], 'functor_params': {name: {'iterComparer': 'skip'}},
+                'ret_types': {name: 'unsigned long'}, 'fuel': {name: 'loop_fuel'}}
+        f = SrchFn(cxx2coq.Ctx(cfgf), d, name)
+        try:
+            out.append(f.gen())
+        except TranslationError as ex:
+            raise TranslationError('%s: %s' % (name, ex))
+    return ('(* GENERATED by props/C17/sel2coq.py (on tools/cxx2coq.py) from HashSorter.h: pvBinarySearch, pvExponentialSearch;\n'
+            '   returns are exit codes (see sel2coq.SrchFn) -- do not edit *)\n\n'
+            'From Coq Require Import ZArith Bool List.\nFrom MomoCommon Require Import GenPrelude.\nLocal Open Scope Z_scope.\n\n'
+            'Section Gen_Searches_sec.\nVariable cmp : Z -> Z.\nVariable loop_fuel : nat.\n\n' + '\n\n'.join(out) + '\n\nEnd Gen_Searches_sec.\n')
+
+
+# ======================================================================================================================
+# grow round 5, part 2: the group callback (lambda) of HashSorter::pvSort
+def translate_group_lambda(repo='/repo', tu=None):
+    """Gen_GroupLambda.v: the condition under which HashSorter::pvSort's groupFunc lambda calls pvGroup(begin, count, ...)"""
+    tu = tu or os.path.join(os.path.dirname(os.path.abspath(__file__)), 'inst_hs.cpp')
+    cfg = {'tu': tu, 'filter': 'HashSorter', 'includes': [os.path.join(repo, 'include')]}
+    objs = cxx2coq.load_objs(cxx2coq.dump_ast(cfg, repo))
+    ds = [d for d in _methods(objs, 'pvSort') if any(c.get('kind') == 'TemplateArgument' for c in d.get('inner', []))]
+    if len(ds) < 1:
+        raise TranslationError('no instantiated HashSorter::pvSort')
+    lambdas = []
+    def walk(n):
+        if isinstance(n, dict):
+            if n.get('kind') == 'LambdaExpr':
+                lambdas.append(n)
+            for c in n.get('inner', []):
+                walk(c)
+    walk(ds[0])
+    if len(lambdas) != 1:
+        raise TranslationError('HashSorter::pvSort: expected exactly one lambda (groupFunc), found %d' % len(lambdas))
+    ops = _methods([lambdas[0]], 'operator()')
+    if len(ops) != 1:
+        raise TranslationError('groupFunc lambda without a single operator()')
+    d = dict(ops[0])
+    body = [c for c in d['inner'] if c.get('kind') == 'CompoundStmt'][0]
+    st = body.get('inner', [])
+    if len(st) != 1 or st[0].get('kind') != 'IfStmt' or len(st[0]['inner']) != 2:
+        raise TranslationError('groupFunc lambda is no longer a single `if (cond) pvGroup(...)`')
+    th = st[0]['inner'][1]
+    while th.get('kind') == 'CompoundStmt' and len(th.get('inner', [])) == 1:
+        th = th['inner'][0]
+    ci = callinfo(th)
+    if ci is None or ci[0] != 'pvGroup' or len(ci[1]) < 2:
+        raise TranslationError('groupFunc lambda does not call pvGroup')
+    a0 = strip_casts(ci[1][0]); a1 = strip_casts(ci[1][1])
+    if a0.get('kind') != 'DeclRefExpr' or a0['referencedDecl']['name'] != 'begin' or a1.get('kind') != 'DeclRefExpr' or a1['referencedDecl']['name'] != 'count':
+        raise TranslationError('groupFunc lambda does not pass (begin, count) to pvGroup')
+    cfgf = {'name': 'Gen_GroupLambda', 'fields': {}, 'functions': [], 'ret_types': {'operator()': 'void'}}
+    f = RxFn(cxx2coq.Ctx(cfgf), d, 'group_lambda')
+    cond = f.e(st[0]['inner'][0])
+    return ('(* GENERATED by props/C17/sel2coq.py (on tools/cxx2coq.py) from HashSorter.h: groupFunc lambda of HashSorter::pvSort -- do not edit *)\n\n'
+            'From Coq Require Import ZArith Bool List.\nFrom MomoCommon Require Import GenPrelude.\nLocal Open Scope Z_scope.\n\n'
+            '(* the lambda is `if (<this>) pvGroup(begin, count, equalFunc, iterSwapper);` *)\n'
+            'Definition group_lambda_calls_pvGroup (count : Z) : bool := %s.\n' % cond)
